@@ -259,7 +259,7 @@ def tlc(module, cfg_path, workers=4, timeout=900, env=None, simulate=None, depth
     """Run TLC on spec/<module>.tla with the given cfg.  `line_sink(line)` receives every stdout line
     (used to pipe behaviours to a replayer); returns a TlcResult.  Raises ModelFailure on tool failure."""
     md = _metadir()
-    cmd = ["java", "-XX:+UseSerialGC", "-Xmx" + heap]   # ParallelGC burns system time in this VM
+    cmd = ["java", "-XX:+UseSerialGC", "-Xss64m", "-Xmx" + heap]   # ParallelGC burns system time in this VM
     if dfs:
         cmd.append("-Dtlc2.tool.queue.IStateQueue=StateDeque")
     cmd += ["-cp", TLA_JAR, "tlc2.TLC", "-workers", str(workers), "-metadir", md, "-noGenerateSpecTE",
@@ -491,10 +491,18 @@ def record_trace(exe, args, path, timeout=600, leaks=False):
         m = re.search(r"(/[^\s:]*(?:include/ipr|src)/[^\s:]+:\d+)", r.stderr)
         if m:
             frame = m.group(1)
-        with open(path, "a") as f:
-            f.write("\n" if not open(path).read().endswith("\n") and os.path.getsize(path) else "")
-            f.write(json.dumps({"e": kind, "op": kind, "rc": r.returncode, "frame": frame,
-                                "detail": r.stderr[-600:]}) + "\n")
+        # a crash can leave a partial last line: keep only complete JSON lines, then the terminal event
+        good = []
+        for ln in open(path, errors="replace").read().splitlines():
+            try:
+                json.loads(ln)
+                good.append(ln)
+            except ValueError:
+                pass
+        detail = re.sub(r"[^\x20-\x7e]", " ", r.stderr[-600:])
+        good.append(json.dumps({"e": kind, "op": kind, "k": kind, "rc": r.returncode, "frame": frame, "detail": detail}))
+        with open(path, "w") as f:
+            f.write("\n".join(good) + "\n")
     return path
 
 
